@@ -186,6 +186,19 @@ func main() {
 			// lines already produced: flush them, report, and exit 3 so the check still classifies the partial run.
 			defer func() {
 				if r := recover(); r != nil {
+					// A panic raised inside the library under test (innermost non-runtime frame in lattigo) on an
+					// input this generator produces is reported as a failing probe: on the unchanged tree the
+					// generator completes, so the library does not panic on these inputs. A panic raised in the
+					// harness itself (an unexpected shape) stays a broken run.
+					if fr := libraryPanicFrame(debug.Stack()); fr != "" {
+						msg := strings.Map(func(r rune) rune {
+							if r == '\n' || r == '\r' {
+								return ' '
+							}
+							return r
+						}, fmt.Sprintf("%v", r))
+						c.Probe("no_library_panic", fmt.Sprintf("seed=%d tier=%s after_line=%d", c.Seed, c.Tier, c.N), c.Prop+"/library-panic", "library code panicked: "+msg+" at "+fr)
+					}
 					_ = c.ops.Flush()
 					_ = c.impl.Flush()
 					_ = fo.Close()
@@ -225,4 +238,42 @@ func repoPath() string {
 		return p
 	}
 	return "/repo"
+}
+
+// libraryPanicFrame returns "func file:line" of the innermost frame below the panic when that frame belongs to
+// the library under test, "" otherwise.
+func libraryPanicFrame(stack []byte) string {
+	lines := strings.Split(string(stack), "\n")
+	seenPanic := false
+	for i := 0; i+1 < len(lines); i++ {
+		l := lines[i]
+		if strings.HasPrefix(l, "panic(") {
+			seenPanic = true
+			i++
+			continue
+		}
+		if !seenPanic || strings.HasPrefix(l, "\t") || l == "" {
+			continue
+		}
+		if strings.HasPrefix(l, "runtime.") || strings.HasPrefix(l, "runtime/") {
+			i++
+			continue
+		}
+		if strings.HasPrefix(l, "github.com/tuneinsight/lattigo/") {
+			fn := l
+			if k := strings.Index(fn, "("); k > 0 {
+				fn = fn[:k]
+			}
+			loc := strings.TrimSpace(lines[i+1])
+			if k := strings.Index(loc, " +0x"); k > 0 {
+				loc = loc[:k]
+			}
+			if k := strings.LastIndex(loc, "/"); k >= 0 {
+				loc = loc[k+1:]
+			}
+			return fn + " " + loc
+		}
+		return ""
+	}
+	return ""
 }
